@@ -154,6 +154,13 @@ def _judge(reg, m, index):
             return (m.name, label, "fail-closed", str(e)[:200])
         new = [i for i in new if (i.rule, i.key) not in _BASELINE_KEYS]
         fired = sorted({i.rule for i in new})
+        rerr = getattr(ctx, "rule_errors", {}) or {}
+        if rerr and not (set(expects) & set(fired)):
+            first = sorted(rerr.values())[0][:200]
+            if not expects:
+                return (m.name, None, "noisy", f"ANALYSIS-ERROR on benign refactor: {first}")
+            if not new or set(expects) & set(rerr):
+                return (m.name, label, "fail-closed", first)
         if not expects:
             if new:
                 return (m.name, None, "noisy", "; ".join(f"{i.rule} {i.key}: {i.detail}" for i in new)[:400])
@@ -272,7 +279,12 @@ def main(argv=None):
         for s in i.path or []:
             print("    " + s)
         print(f"VIOLATION property={prop} replay={rp}")
+    rule_errors = getattr(ctx, "rule_errors", {}) or {}
+    for rid, msg in sorted(rule_errors.items()):
+        print(f"ANALYSIS-ERROR property={prop} {msg}")
     wall = time.time() - t0
+    if rule_errors:
+        extra["rules_undecided"] = sorted(rule_errors)
     write_evidence(evidence, reg, ctx, per_rule, wall, new, hit, extra)
     n_inst = sum(v["instances"] for v in per_rule.values())
     print(
@@ -281,6 +293,8 @@ def main(argv=None):
     )
     if new:
         return 1
+    if rule_errors:
+        return 2
     if not st_ok:
         print(f"ANALYSIS-ERROR property={prop} self-test battery failed (machinery broken)")
         return 2
